@@ -104,6 +104,27 @@ def getstate_keys(fi):
     return None
 
 
+def state_keys(repo, ci):
+    """The keys of the pickling state of class ``ci``: __getstate__ interpreted on an object as __init__ leaves it (however the dict is built: a literal,
+    a comprehension over a class-level tuple, ...); the dict literal read off the source as a fall-back."""
+    from .interp import Interp, Obj, Unk
+    gs, ini = repo.find_member(ci, '__getstate__'), repo.find_member(ci, '__init__')
+    if gs is None or gs[0] != 'method':
+        return None
+    try:
+        I = Interp(repo)
+        o = Obj(ci, {})
+        if ini is not None and ini[0] == 'method':
+            I.call(ini[1], [], selfv=o)
+        d = I.call(gs[1], [], selfv=o)
+        if isinstance(d, dict) and d and all(isinstance(k, str) for k in d):
+            return list(d)
+    except Exception:
+        pass
+    lit = getstate_keys(gs[1])
+    return list(lit) if lit else None
+
+
 def setstate_reads(fi):
     """{key: (attribute stored, access kind)} for ``self.<attr> = d[<key>]``."""
     d = fi.params[1] if len(fi.params) > 1 else None
